@@ -19,7 +19,16 @@ LeafSet == { [k |-> "this"], [k |-> "cu", rel |-> "a"], [k |-> "ttu", rel |-> "b
 SeqsUpTo(S, n) == UNION { [1..k -> S] : k \in 1..n }
 OpTrees(S, w) == { [k |-> op, ch |-> s] : op \in {"union", "inter"}, s \in SeqsUpTo(S, w) } \cup { [k |-> "diff", ch |-> <<a, b>>] : a \in S, b \in S }
 T1(w) == LeafSet \cup OpTrees(LeafSet, w)
-TreeSet == T1(W1) \cup OpTrees(IF Deep THEN T1(W1) ELSE T1(2), W2)
+\* spines three and four operators deep: the leaf L (the direct assignment or a computed userset) sits at the bottom of a chain of
+\* operators, every one of which holds the chain as its first (side = 1) or its second (side = 2) operand; the other operand is a leaf.
+\* (`((([user] or a) and b) but not c)` is expressible however deep it is; one step to the right anywhere on the way and it is not.)
+Ops3 == {"union", "inter", "diff"}
+Pair(op, side, sub, other) == [k |-> op, ch |-> IF side = 1 THEN <<sub, other>> ELSE <<other, sub>>]
+CU == [k |-> "cu", rel |-> "a"]
+Spine3 == { Pair(o1, s1, Pair(o2, s2, Pair(o3, s3, L, CU), CU), [k |-> "ttu", rel |-> "b", ts |-> "p"]) :
+              o1 \in Ops3, o2 \in Ops3, o3 \in Ops3, s1 \in 1..2, s2 \in 1..2, s3 \in 1..2, L \in {[k |-> "this"], CU} }
+Spine4 == { Pair(o0, s0, t, CU) : o0 \in Ops3, s0 \in 1..2, t \in { x \in Spine3 : x.k # "inter" /\ x.ch[2].k = "ttu" } }
+TreeSet == T1(W1) \cup OpTrees(IF Deep THEN T1(W1) ELSE T1(2), W2) \cup Spine3 \cup (IF Deep THEN Spine4 ELSE { x \in Spine4 : x.ch[1].k # "cu" /\ x.k = "diff" })
 
 Ty(t) == [t |-> t, kind |-> "type", rel |-> "", cond |-> ""]
 Wi(t) == [t |-> t, kind |-> "wild", rel |-> "", cond |-> ""]
@@ -28,6 +37,8 @@ WithC(x, c) == [x EXCEPT !.cond = c]
 RestrVariant(v) == CASE v = 0 -> <<Ty("user")>>
                      [] v = 1 -> <<Ty("user"), Wi("user"), WithC(Us("doc", "a"), "c1"), WithC(Wi("user"), "c1")>>
                      [] v = 2 -> <<WithC(Ty("user"), "c1"), Us("doc", "b")>>
+                     \* the same restriction several times, adjacent and apart: a list, not a set - nothing is merged or dropped
+                     [] v = 3 -> <<Ty("user"), Ty("user"), WithC(Us("doc", "a"), "c1"), WithC(Us("doc", "a"), "c1"), Wi("user"), Ty("user"), Wi("user"), Wi("user")>>
 PlainRel(n, rw, restr) == [name |-> n, module |-> "", file |-> "", rw |-> rw, restr |-> restr]
 \* (the expression of variant 2 spans two lines, the continuation line indented by four blanks: the DSL carries it verbatim)
 C1 == [name |-> "c1", module |-> "", file |-> "",
@@ -46,7 +57,7 @@ WrapTree(t, v) ==
                 [name |-> "doc", module |-> "", file |-> "",
                  rels |-> << PlainRel("a", [k |-> "this"], <<Ty("user")>>), PlainRel("b", [k |-> "this"], <<Ty("user")>>),
                              PlainRel("p", [k |-> "this"], <<Ty("doc")>>), PlainRel("x", t, RestrVariant(v)) >>] >>,
-   conds |-> IF v = 0 THEN <<>> ELSE IF v = 1 THEN <<C1>> ELSE <<[C1 EXCEPT !.expr = "x < 10 &&\n    ys[0] == \"a\" && x % 3 == 1"]>>]
+   conds |-> IF v = 0 THEN <<>> ELSE IF v \in {1, 3} THEN <<C1>> ELSE <<[C1 EXCEPT !.expr = "x < 10 &&\n    ys[0] == \"a\" && x % 3 == 1"]>>]
 
 \* a short deterministic key of a tree (used as record id and to rotate the restriction variants)
 RECURSIVE Key(_)
@@ -55,7 +66,7 @@ Key(t) == CASE t.k = "this" -> "T" [] t.k = "cu" -> "c" [] t.k = "ttu" -> "f"
             [] t.k = "union" -> "u(" \o KeyCh(t.ch, 1) \o ")" [] t.k = "inter" -> "i(" \o KeyCh(t.ch, 1) \o ")" [] t.k = "diff" -> "d(" \o KeyCh(t.ch, 1) \o ")"
 KeyCh(ch, i) == IF i > Len(ch) THEN "" ELSE Key(ch[i]) \o KeyCh(ch, i + 1)
 
-TreeRec(t) == LET v == Len(Key(t)) % 3
+TreeRec(t) == LET v == Len(Key(t)) % 4
                   M == WrapTree(t, v)
               IN [rec |-> "tree", id |-> Key(t), m |-> M, expressible |-> Expressible(t), accepts |-> PrinterAccepts(t),
                   print |-> IF PrinterAccepts(t) THEN PrintM(M, FALSE) ELSE "", norm |-> IF Expressible(t) THEN NormM(M) ELSE <<>>,
@@ -95,7 +106,7 @@ AttrModel(c) ==    \* c = [t1, t2, r1, r2, r3, c1, c2] indices into AttrPool
                     rels |-> [i \in 1..14 |-> LET nm == <<"owner", "guest", "commenter", "viewer", "editor", "approver", "auditor", "manager", "reader", "writer", "admin", "member", "notary", "counsel">>[i]
                                               IN At(PlainRel(nm, [k |-> "this"], <<Ty("alpha")>>), IF i > 12 THEN c.r2 ELSE IF i % 2 = 0 THEN c.r1 ELSE c.t2)]], c.t1) >>),
    conds |-> << At([name |-> "k2", module |-> "", file |-> "", params |-> <<[name |-> "b", ty |-> "TYPE_NAME_STRING", elem |-> ""], [name |-> "a", ty |-> "TYPE_NAME_TIMESTAMP", elem |-> ""], [name |-> "userId", ty |-> "TYPE_NAME_STRING", elem |-> ""],
-                                                                              [name |-> "Zone", ty |-> "TYPE_NAME_INT", elem |-> ""], [name |-> "userid", ty |-> "TYPE_NAME_BOOL", elem |-> ""], [name |-> "user_ip", ty |-> "TYPE_NAME_IPADDRESS", elem |-> ""]>>,
+                                                                              [name |-> "Zone", ty |-> "TYPE_NAME_INT", elem |-> ""], [name |-> "userid", ty |-> "TYPE_NAME_BOOL", elem |-> ""], [name |-> "lim", ty |-> "TYPE_NAME_INT", elem |-> ""], [name |-> "lim2", ty |-> "TYPE_NAME_INT", elem |-> ""], [name |-> "lim10", ty |-> "TYPE_NAME_UINT", elem |-> ""], [name |-> "user_ip", ty |-> "TYPE_NAME_IPADDRESS", elem |-> ""]>>,
                     expr |-> "a > timestamp(b) &&\n    Zone < 3"], c.c1),
                 At([name |-> "k1", module |-> "", file |-> "", params |-> <<[name |-> "ip", ty |-> "TYPE_NAME_IPADDRESS", elem |-> ""]>>, expr |-> "ip.in_cidr(\"10.0.0.0/8\")"], c.c2) >>]
 AttrChoices == [t1 : TypeAttrs, t2 : TypeAttrs, r1 : RelAttrs, r2 : RelAttrs, r3 : RelAttrs, c1 : CondAttrs, c2 : CondAttrs]
